@@ -185,6 +185,50 @@ def for_indexed(text, k, by_ref, adapter):
     return text[:s] + new + text[body_close + 1:], note
 
 
+def split_or_guard(text):
+    """`Ctor(A | B) if G => { BODY }`  ==>  `Ctor(A) if G => { BODY } Ctor(B) if G => { BODY }` for every such arm
+    (Verus does not support an or-pattern together with a match guard; the alternatives bind nothing)."""
+    n = 0
+    pos = 0
+    while True:
+        m = rs.mask(text)
+        hit = None
+        for s_, e_, mm in rs.find_code(text, m, r'(\w+)\(([^()|]+?)\s*\|\s*([^()|]+?)\)\s+if\b', pos, len(text)):
+            hit = (s_, e_, mm)
+            break
+        if not hit:
+            break
+        s_, e_, mm = hit
+        # guard runs to '=>' at depth 0
+        j = e_
+        d = 0
+        while j < len(text):
+            if m[j] == rs.CODE:
+                if text[j] in '([{':
+                    d += 1
+                elif text[j] in ')]}':
+                    d -= 1
+                elif d == 0 and text.startswith('=>', j):
+                    break
+            j += 1
+        guard = text[e_:j]
+        k = j + 2
+        while text[k].isspace() or text[k] == '\x01' or text[k].isdigit() or text[k] == 'T':
+            if text[k] == '\x01':
+                k = text.index('\x01', k + 1)
+            k += 1
+        if text[k] != '{':
+            raise T4Error('split_or_guard: arm body is not a block')
+        close = rs.match_close(text, m, k)
+        body = text[k:close + 1]
+        ctor, a, b = mm.group(1), mm.group(2), mm.group(3)
+        new = '%s(%s) if%s=> %s\n%s(%s) if%s=> %s' % (ctor, a, guard, body, ctor, b, guard, body)
+        text = text[:s_] + new + text[close + 1:]
+        pos = s_ + len(new)
+        n += 1
+    return text, n
+
+
 def count_sites(text, kind):
     m = rs.mask(text)
     WS = r'(?:\s|\x01T?\d+\x01)*'
